@@ -131,17 +131,22 @@ class Env:
     renderers: `rnd_mode` in {'shared','client','op'} likewise.
     """
 
-    def __init__(self, catalogs, cat_mode='op', rnd_mode='op', meta_share=False, shared=None):
+    def __init__(self, catalogs, cat_mode='op', rnd_mode='op', meta_share=False, shared=None, edits_in_place=False):
+        self.edits_in_place = edits_in_place
         self.cat_mode = cat_mode
         self.rnd_mode = rnd_mode
         self._pristine = catalogs
+        self._variants = [k for k in catalogs if '+' in k]
         if shared is not None and cat_mode == 'shared':
             self._cats = shared._cats
         elif cat_mode != 'op':
             self._cats = copy.deepcopy(catalogs)
             if meta_share:
                 pool = {}
+                edited = {k.split('+', 1)[0] for k in catalogs if '+' in k}
                 for cid in sorted(self._cats):
+                    if '+' in cid or cid in edited:
+                        continue          # catalogs that get edited in place keep objects of their own
                     cat = self._cats[cid]
                     for f in ('predictor_metadata', 'integrations'):
                         v = cat.get(f)
@@ -159,7 +164,45 @@ class Env:
             return {}
         if self.cat_mode == 'op':
             return copy.deepcopy(self._pristine[cid])
+        if not self.edits_in_place:
+            # several clients share these objects: a caller editing them while another call is planning would be the
+            # caller's own race, so here the variants of a catalog are separate objects
+            return self._cats[cid]
+        if '+' in cid:
+            # a variant 'X+eN' is the caller EDITING catalog X in place between calls: the very same list / dict objects
+            # as X (and as every other variant of X), their content brought to the variant's content
+            base = self._cats[cid.split('+', 1)[0]]
+            want = self._pristine[cid]
+            for f in ('integrations', 'predictor_metadata'):
+                cur, new = base.get(f), copy.deepcopy(want.get(f))
+                if isinstance(cur, list) and isinstance(new, list):
+                    cur[:] = new
+                elif isinstance(cur, dict) and isinstance(new, dict):
+                    cur.clear()
+                    cur.update(new)
+                else:
+                    base[f] = new
+            for f in ('predictor_namespace', 'default_namespace'):
+                base[f] = want.get(f)
+            return base
+        if any(k.startswith(cid + '+') for k in self._variants):
+            # the base content again (the caller undid its edit), same objects
+            self._variants_sync(cid)
         return self._cats[cid]
+
+    def _variants_sync(self, cid):
+        base, want = self._cats[cid], self._pristine[cid]
+        for f in ('integrations', 'predictor_metadata'):
+            cur, new = base.get(f), copy.deepcopy(want.get(f))
+            if isinstance(cur, list) and isinstance(new, list):
+                cur[:] = new
+            elif isinstance(cur, dict) and isinstance(new, dict):
+                cur.clear()
+                cur.update(new)
+            else:
+                base[f] = new
+        for f in ('predictor_namespace', 'default_namespace'):
+            base[f] = want.get(f)
 
     @staticmethod
     def _new_renderer(rd):
